@@ -67,7 +67,7 @@ func init() {
 				"invalid_block_rejected_nonce_too_high": 30, "invalid_block_rejected_nonce_too_low": 30, "invalid_block_rejected_cannot_prepay_gas": 30,
 				"invalid_block_rejected_cannot_pay_value_after_gas": 30, "invalid_block_rejected_gas_limit_below_intrinsic": 30, "invalid_block_rejected_gas_limit_above_block_rest": 30,
 				"twin_block_accepted": 100, "twin_exactly_enough_for_gas": 10, "twin_exactly_enough_for_gas_and_value": 10, "twin_gas_equals_intrinsic": 10, "twin_gas_equals_block_rest": 10,
-				"invalid_block_behind_valid_block": 30,
+				"invalid_block_behind_valid_block": 30, "empty_sender_touched_then_sends": 20, "existing_empty_account_touched_in_reverted_frame": 50,
 			}
 		},
 		AnchorFiles: []string{"core/state_transition.go", "core/state_processor.go", "core/gaspool.go", "core/vm/evm.go", "core/types/receipt.go", "core/block_validator.go"},
@@ -126,6 +126,15 @@ func (e *env) chooseCoinbase(r *fw.Rand, num uint64) common.Address {
 		sortAddrs(em)
 		return em[r.Intn(len(em))]
 	}
+}
+
+func indexOf(l []*sender, s *sender) int {
+	for i, x := range l {
+		if x == s {
+			return i
+		}
+	}
+	return 0
 }
 
 // forcedTemplates are executed in every case so that the observation classes
@@ -236,6 +245,21 @@ func runEq(c *fw.Ctx) {
 				}
 				forcedAt[bn] = append(forcedAt[bn], ft)
 			}
+			// prebyz only: a key-holding address Z is made an existing empty account
+			// before EIP-158; in a later block a failing frame touches it and then Z
+			// itself sends a transaction (price 0: it owns nothing)
+			var Z *sender
+			zBlock := 0
+			if cfgName == "prebyz" {
+				for _, s := range e.w.Senders {
+					if s.Kind == "zero" {
+						Z = s
+						break
+					}
+				}
+				e.reserved[Z.Addr] = true
+				zBlock = r.Range(2, nBlocks)
+			}
 			for bn := 1; bn <= nBlocks && !e.broken; bn++ {
 				coinbase := e.chooseCoinbase(r, uint64(bn))
 				b := e.begin(coinbase, int64(r.Range(-3000, 3000)))
@@ -253,8 +277,35 @@ func runEq(c *fw.Ctx) {
 					if p := b.lattice(r, s, t, force{gasMode: "ample", noFund: true}); p != nil {
 						queue = append(queue, p)
 					}
+					if Z != nil {
+						s2 := e.w.Senders[(r.Intn(5)+1+indexOf(e.w.Senders, s))%6]
+						t2 := tmpl{kind: "transfer_existing", to: addrp(Z.Addr), expect: expectOK, noVal: true}
+						if p := b.lattice(r, s2, t2, force{gasMode: "ample", noFund: true}); p != nil {
+							queue = append(queue, p)
+						}
+					}
+				}
+				if Z != nil && bn == zBlock {
+					if x, ok := b.cur[Z.Addr]; ok && x.empty() && coinbase != Z.Addr {
+						s := e.w.Senders[r.Intn(6)]
+						t1 := tmpl{kind: "touch_fail_empty_key", to: addrp(addrTouch), data: gen.Cat(wordA(Z.Addr), word(0)), ample: 120000, expect: expectFail}
+						t2 := tmpl{kind: "empty_key_sends", to: addrp(e.freshAddr()), expect: expectOK, noVal: true}
+						if p1 := b.lattice(r, s, t1, force{gasMode: "ample", noFund: true}); p1 != nil {
+							queue = append(queue, p1)
+							// the second plan is drawn after the first ran (nonce/balance are read then)
+							queue = append(queue, &plan{Kind: "\x00z", S: Z, To: t2.to})
+							c.Count("empty_sender_touched_then_sends")
+						}
+					}
+					delete(e.reserved, Z.Addr)
 				}
 				for _, p := range queue {
+					if p.Kind == "\x00z" {
+						t2 := tmpl{kind: "empty_key_sends", to: p.To, expect: expectOK, noVal: true}
+						if p = b.lattice(r, Z, t2, force{gasMode: "ample", noFund: true}); p == nil {
+							continue
+						}
+					}
 					if alive = b.step(r, p, false); !alive {
 						break
 					}
